@@ -38,7 +38,7 @@ RULE = ("case = (real directory chain of depth <=4 in a temporary directory, eac
         "directory), two or three loader objects interleaved, `.start` read in between, find and load mixed, the two "
         "collection names asked in a row, candidates created / removed between the calls; loaders are created in a "
         "directory other than those they are used in; after every load the project invoke.yaml is read through Config; "
-        "a history is non-trivial when a loader is used again from another working directory")
+        "a history is non-trivial when a loader is used again from another working directory.  Module BODIES with import-time behaviour (every layout of depth <=2 over none/module/package/both x body assignments: a chain of nested projects each loading the same-named collection of the enclosing directory through a FilesystemLoader, loading itself once more, loading another collection from above / from a side directory, rebinding or deleting sys.modules[its name], changing cwd with and without restoring it): the module returned is still the one defined by the nearest candidate, and every re-entrant load obeys the same rule")
 TRUSTED = ["Lean 4.33 kernel", "axioms propext/Classical.choice/Quot.sound only",
            "harness/props/c20.py correspondence + canonicalisation",
            "CPython os.path.abspath / os.listdir / os.path.exists / importlib spec loading (modelled: absPath, FS.ls, FS.ex)",
@@ -110,6 +110,104 @@ def del_candidate(d, name):
     if os.path.exists(os.path.join(d, name + ".py")):
         os.remove(os.path.join(d, name + ".py"))
     shutil.rmtree(os.path.join(d, name), ignore_errors=True)
+
+
+# ---- module BODIES with import-time behaviour (the text appended to a candidate's source; MARK and the sibling import
+# come first, so what follows cannot disturb them)
+HELPER = "helpercoll"  # another collection: `helpercoll.py` at level 0 of the tree and in a side directory next to it
+BODIES = ["plain", "reload_up", "reload_self", "reload_other_up", "reload_other_side", "rebind", "delete", "chdir", "chdir_stay"]
+_RELOAD = ("from invoke.loader import FilesystemLoader as _FL\n"
+           "from invoke.exceptions import CollectionNotFound as _CNF\n"
+           "try:\n"
+           "    _m, _p = _FL(start=%r).load(%r)\n"
+           "    INNER = [getattr(_m, 'MARK', None), _p, getattr(_m, 'INNER', None)]\n"
+           "except _CNF:\n"
+           "    INNER = ['notfound', None, None]\n"
+           "except RecursionError:\n"
+           "    raise\n"
+           "except Exception as _e:\n"
+           "    INNER = ['exc:' + type(_e).__name__, None, None]\n")
+
+
+def body_text(tree, lvl, variant):
+    """import-time behaviour of the candidate at level `lvl`"""
+    up = tree.dirs[lvl - 1] if lvl > 0 else tree.root
+    if variant == "reload_up":      # a nested project: load the same-named collection of the enclosing project
+        return _RELOAD % (up, tree.name)
+    if variant == "reload_self":    # ... or from its own directory once more (guarded against endless recursion)
+        return ("import builtins as _b\n"
+                "if getattr(_b, '_verif_c20_depth', 0) < 2:\n"
+                "    _b._verif_c20_depth = getattr(_b, '_verif_c20_depth', 0) + 1\n"
+                "    try:\n" + "".join("        " + l + "\n" for l in (_RELOAD % (tree.dirs[lvl], tree.name)).splitlines()) +
+                "    finally:\n"
+                "        _b._verif_c20_depth -= 1\n")
+    if variant == "reload_other_up":
+        return _RELOAD % (tree.dirs[lvl], HELPER)
+    if variant == "reload_other_side":
+        return _RELOAD % (os.path.join(tree.root, "side"), HELPER)
+    if variant == "rebind":         # swaps itself out of sys.modules while executing
+        return ("import sys as _s, types as _t\n"
+                "_imp = _t.ModuleType(__name__)\n"
+                "_imp.MARK = 'impostor'\n"
+                "_imp.__file__ = __file__\n"
+                "_s.modules[__name__] = _imp\n")
+    if variant == "delete":
+        return "import sys as _s\n_s.modules.pop(__name__, None)\n"
+    if variant == "chdir":
+        return "import os as _os\n_c = _os.getcwd()\n_os.chdir(%r)\n_os.chdir(_c)\n" % tree.root
+    if variant == "chdir_stay":
+        return "import os as _os\n_os.chdir(%r)\n" % tree.root
+    return ""
+
+
+def apply_bodies(tree, bodies):
+    """bodies: {level (str or int): variant}"""
+    write(os.path.join(tree.dirs[0], HELPER + ".py"), "MARK = '0:other'\n")
+    os.makedirs(os.path.join(tree.root, "side"), exist_ok=True)
+    write(os.path.join(tree.root, "side", HELPER + ".py"), "MARK = 'side:other'\n")
+    for lvl, variant in bodies.items():
+        lvl = int(lvl)
+        extra = body_text(tree, lvl, variant)
+        for f in (os.path.join(tree.dirs[lvl], tree.name + ".py"), os.path.join(tree.dirs[lvl], tree.name, "__init__.py")):
+            if os.path.isfile(f) and extra:
+                with open(f, "a") as fh:
+                    fh.write(extra)
+
+
+def oracle_bodies(tree, bodies, r):
+    """re-entrant loads obey the same rule: what a module loaded at import time is again the nearest candidate at or
+    above the directory it started from, with that directory as project location"""
+    if r["r"] != "ok" or not r.get("mark") or ":" not in r["mark"]:
+        return None
+
+    def check(lvl, inner, depth):
+        variant = bodies.get(str(lvl), bodies.get(lvl, "plain"))
+        if variant not in ("reload_up", "reload_self", "reload_other_up", "reload_other_side") or depth > 8:
+            return None
+        if inner is None:
+            return None if variant == "reload_self" else "the module of level %d did not record its import-time load" % lvl
+        if variant == "reload_other_up":
+            want = ("0:other", tree.dirs[0])
+        elif variant == "reload_other_side":
+            want = ("side:other", os.path.join(tree.root, "side"))
+        else:
+            frm = lvl if variant == "reload_self" else lvl - 1
+            strict, _len = (expected_levels(tree.kinds, frm) if frm >= 0 else (None, None))
+            if strict is None:
+                if inner[0] == "notfound" or candidate_above(tree):
+                    return None
+                return "import-time load from level %d found %r although nothing is at or above it" % (frm, inner[0])
+            if inner[0] not in ("%d:module" % strict, "%d:package" % strict):
+                return ("the collection loaded at import time by the module of level %d (from level %d) is %r, the nearest "
+                        "candidate there is level %d" % (lvl, frm, inner[0], strict))
+            if inner[1] is None or os.path.abspath(inner[1]) != tree.dirs[strict]:
+                return "import-time load reported project directory %r, expected %r" % (inner[1], tree.dirs[strict])
+            return check(strict, inner[2], depth + 1)
+        if inner[0] != want[0] or inner[1] is None or os.path.abspath(inner[1]) != want[1]:
+            return "import-time load of the other collection gave %r, expected %r" % (inner[:2], list(want))
+        return None
+
+    return check(int(r["mark"].split(":")[0]), r.get("inner"), 0)
 
 
 class Tree:
@@ -213,7 +311,7 @@ def clean_imports(name, cwd):
     old_cwd = os.getcwd()
     old_path = list(sys.path)
     old_dwb = sys.dont_write_bytecode
-    drop = (name, "sibmark", "psib")
+    drop = (name, "sibmark", "psib", HELPER)
     # a collection may be named like a module the process already has (json, __main__): the loader binds
     # sys.modules[name] to what it loads; whatever was there before is put back afterwards
     saved = {m: sys.modules[m] for m in sys.modules if m in drop or m.startswith(name + ".")}
@@ -244,8 +342,13 @@ def run_loader(startarg, name, cwd):
         try:
             mod, parent = FilesystemLoader(start=startarg).load(name)
             added = [p for p in sys.path if p not in before]
+            # a module that loads further collections while it is imported adds their directories as well: report the
+            # entry that belongs to THIS module's file if it is among the new ones
+            own = [p for p in added if p == os.path.dirname(str(getattr(mod, "__file__", "")))]
+            added = own + [p for p in added if p not in own]
             return {"r": "ok", "file": mod.__file__, "parent": parent, "mark": getattr(mod, "MARK", None),
-                    "sib": getattr(mod, "SIB", None), "syspath": added[0] if added else None,
+                    "sib": getattr(mod, "SIB", None), "inner": getattr(mod, "INNER", None),
+                    "syspath": added[0] if added else None,
                     "syspath_first": bool(added) and sys.path[0] == added[0]}
         except CollectionNotFound:
             return {"r": "notfound"}
@@ -311,6 +414,9 @@ def oracle_loader(tree, s, r):
         lvl, kind = mark.split(":")
         lvl = int(lvl)
     except ValueError:
+        if mark == "impostor":
+            return ("the object returned is a stand-in the module bound to sys.modules[%r] while it was imported, not the module "
+                    "defined by %r" % (tree.name, r.get("file")))
         if strict is None and candidate_above(tree):
             return None  # something outside the generated tree: not constrained here
         return "loaded %r which is not part of the layout" % r.get("file")
@@ -906,10 +1012,14 @@ def replay(case):
     import random
     tree = Tree(case["kinds"], case["name"], case.get("dirnames"))
     try:
+        if case.get("bodies") is not None:
+            apply_bodies(tree, case["bodies"])
         rng = random.Random(case.get("sub", 0))
         startarg, cwd = start_args(tree, case["start"], case["form"], rng)
         r = run_loader(startarg, case["name"], cwd)
         why = oracle_loader(tree, case["start"], r)
+        if why is None and case.get("bodies") is not None:
+            why = oracle_bodies(tree, case["bodies"], r)
         if why is None and case.get("program"):
             rp = run_program(startarg, case["name"], cwd)
             why = oracle_program(tree, case["start"], rp)
@@ -1001,6 +1111,51 @@ def run(ctx):
                     pending.append((case, canon_impl(r)))
         finally:
             tree.close()
+    # module bodies with import-time behaviour (re-entrant loads of the same / another collection, sys.modules rebinding,
+    # cwd changes): every layout of depth <= 2 (thorough <= 3) over {none, module, package, both} x body assignments
+    bk = ["none", "module", "package", "both"]
+    blayouts = [list(k) for depth in range(0, (3 if big else 2) + 1) for k in itertools.product(bk, repeat=depth + 1)]
+    for li, kinds in enumerate(blayouts):
+        cand = [i for i, k in enumerate(kinds) if k != "none"]
+        if not cand:
+            continue
+        assigns = [dict((str(i), "reload_up") for i in cand)]  # a chain of nested projects, each loading the enclosing one
+        for _ in range(ctx.n(2, 6)):
+            assigns.append(dict((str(i), rng.choice(BODIES)) for i in cand))
+        for bodies in assigns:
+            name = NAMES[li % 2]
+            tree = Tree(kinds, name)
+            try:
+                apply_bodies(tree, bodies)
+                lay = tree.layout()
+                for s in range(len(kinds)):
+                    if expected_levels(kinds, s)[0] is None and rng.random() < 0.7:
+                        continue
+                    for form in (["abs", rng.choice(FORMS[1:])] if (big or rng.random() < 0.4) else [rng.choice(FORMS)]):
+                        sub = rng.randrange(1 << 30)
+                        startarg, cwd = start_args(tree, s, form, random.Random(sub))
+                        counter += 1
+                        case = {"kind": "tree", "kinds": kinds, "name": name, "start": s, "form": form, "sub": sub,
+                                "program": counter % (2 * prog_every) == 0, "bodies": bodies}
+                        r = run_loader(startarg, name, cwd)
+                        why = oracle_loader(tree, s, r) or oracle_bodies(tree, bodies, r)
+                        out.case(case, True)
+                        out.hist["bodies"] += 1
+                        strict = expected_levels(kinds, s)[0]
+                        if strict is not None:
+                            out.hist["bodies:nearest=" + bodies.get(str(strict), "plain")] += 1
+                            if bodies.get(str(strict)) in ("reload_up", "reload_self") and r.get("inner") and ":" in str(r["inner"][0]):
+                                out.hist["bodies:reentrant_same_name_load_found_a_farther_module"] += 1
+                        if why is None and case["program"]:
+                            rp = run_program(startarg, name, cwd)
+                            why = oracle_program(tree, s, rp)
+                            out.hist["program_runs"] += 1
+                        if why:
+                            out.fail(case, why)
+                        lines.append(model_line(name, cwd, startarg if startarg else cwd, lay))
+                        pending.append((case, canon_impl(r)))
+            finally:
+                tree.close()
     # virtual layouts: the root directory takes part
     if shim_ok():
         vk = ["none", "module", "package", "baredir"]
